@@ -313,6 +313,8 @@ def ws_case(rng, length=None):
     if any(c >= 128 for c in req[3].partition(b"?")[0]) or any(
             c >= 128 for nm, v in req[1] if nm.lower() in (b"connection", b"sec-websocket-extensions", b"sec-websocket-protocol") for c in v):
         n = 0
+    if n and rng.random() < 0.5:
+        inputs.append(("app", ("ws.accept", None, [])))  # a good share of sessions get past the handshake
     for _ in range(n):
         r = rng.random()
         if r < 0.25:
